@@ -298,11 +298,14 @@ def check_range(model, rep):
         rep.decide(not verdict, 'C14.range', 'DCMotor.pwm[setter]:nan',
                    'a NaN duty cycle (e.g. proposed by StartLimitCurrent for a negative radicand) passes the range guard, which only '
                    'raises on `>`/`<` comparisons that are false for NaN, and is stored and recorded', loc=st.loc)
+    # the private field behind the `pwm` property (whatever it is called)
+    mangled = sx.trivial_getter_field('DCMotor', 'pwm') or '_DCMotor__pwm'
+    fld = '__' + mangled.split('__', 1)[1] if '__' in mangled else mangled
     bad = []
     for c, ci in model.classes.items():
         for mem in ci.all_members():
             for n in ast.walk(mem.node):
-                if isinstance(n, ast.Attribute) and isinstance(n.ctx, ast.Store) and n.attr == '__pwm' and c == 'DCMotor':
+                if isinstance(n, ast.Attribute) and isinstance(n.ctx, ast.Store) and n.attr == fld and c == 'DCMotor':
                     if not ((mem.kind == 'setter' and mem.name == 'pwm') or mem.name == '__init__'):
                         bad.append(mem.qualname)
                     elif mem.name == '__init__':
@@ -311,7 +314,7 @@ def check_range(model, rep):
                             bad.append(f'{mem.qualname} (initial value {ast.unparse(par[0].value)})')
     rep.decide(not bad, 'C14.range', 'DCMotor.__pwm:writers', f'the private duty cycle is also written by {bad}', loc=st.loc)
     init = model.member('DCMotor', '__init__')
-    has_init = any(isinstance(a, ast.Assign) and any(isinstance(t, ast.Attribute) and t.attr == '__pwm' for t in a.targets)
+    has_init = any(isinstance(a, ast.Assign) and any(isinstance(t, ast.Attribute) and t.attr == fld for t in a.targets)
                    and isinstance(a.value, ast.Constant) and a.value.value in (1, 1.0) for a in ast.walk(init.node))
     rep.decide(has_init, 'C14.range', 'DCMotor.__init__:pwm', 'the constructor does not initialise the duty cycle to 1', loc=init.loc)
     # recorder appends the live pwm: the per-class recorder evaluation of C17, restricted to the motor's pwm key
